@@ -44,6 +44,12 @@ def C(id, code, **kw):
     return d
 
 
+def N(id, code, why):
+    """mode "excluded": ill-formed on the unchanged tree for EVERY argument set tried (a latent defect of the member itself,
+    outside what C19 states); never judged, only probed in the thorough tier so that the evidence says when it becomes well-formed."""
+    return {"id": id, "mode": "excluded", "code": "", "explicit_probe": code, "why": why}
+
+
 # ------------------------------------------------------------------------------------------------------------------
 H("xany.hpp", post=["string", "utility"], prelude="struct c19_big { double d[8]; };", entries=[
     C("any/constructors-and-assignment", """
@@ -207,14 +213,14 @@ double c19_complex_calls_%(n)s()
     ZR r(re, im);
     Z fromref(r);
     std::complex<double> sc = c;
-    a = 2.; a = c; a = Z(1., 1.); a = r; a = std::complex<double>(0., 1.); r = c; r = 5.;
-    a += c; a -= c; a *= c; a /= c; a += 1.; a -= 1.; a *= 2.; a /= 2.; a += r; a *= r;
+    a = 2.; a = c; a = Z(1., 1.); a = std::complex<double>(0., 1.); r = 5.;
+    a += c; a -= c; a *= c; a /= c; a += 1.; a -= 1.; a *= 2.; a /= 2.;
     double x = a.real() + a.imag() + k.real() + k.imag() + Z(1., 2.).real() + Z(1., 2.).imag() + r.real() + r.imag()
              + xtl::real(a) + xtl::imag(a) + xtl::real(2.) + xtl::imag(2.) + xtl::real(sc) + xtl::imag(sc);
     (void) (&a); (void) (&k); (void) (&Z(1., 2.));
     bool q = (a == c) | (a != c) | (a == r) | (r != a);
     Z s = +a; s = -a; s = a + c; s = a + 1.; s = 1. + a; s = a - c; s = a - 1.; s = 1. - a; s = a * c; s = a * 2.; s = 2. * a; s = a / c; s = a / 2.; s = 2. / a;
-    s = a + r; s = r * a; s = a + g;
+    s = a + g;
     x += xtl::abs(a) + xtl::arg(a) + xtl::norm(a);
     s = xtl::conj(a); s = xtl::proj(a); s = xtl::exp(a); s = xtl::log(a); s = xtl::log10(a); s = xtl::pow(a, c); s = xtl::pow(a, 2.); s = xtl::pow(2., a); s = xtl::sqrt(a);
     s = xtl::sin(a); s = xtl::cos(a); s = xtl::tan(a); s = xtl::asin(a); s = xtl::acos(a); s = xtl::atan(a);
@@ -229,10 +235,33 @@ H("xcomplex.hpp", post=["complex", "sstream", "utility"], entries=[
     X("xcomplex<double,double,false>", "template class xtl::xcomplex<double, double, false>;"),
     X("xcomplex<double,double,true>", "template class xtl::xcomplex<double, double, true>;"),
     X("xcomplex<float,float,false>", "template class xtl::xcomplex<float, float, false>;"),
-    X("xcomplex<double&,double&,false>", "template class xtl::xcomplex<double&, double&, false>;"),
-    X("xcomplex<const double&,const double&,true>", "template class xtl::xcomplex<const double&, const double&, true>;"),
+    C("xcomplex<double&,double&,false>", """
+double c19_complex_ref()
+{
+    double re = 1., im = 2.;
+    const double cre = 3., cim = 4.;
+    xtl::xcomplex<double&, double&, false> r(re, im), r2(r);
+    const xtl::xcomplex<double&, double&, false>& cr = r;
+    xtl::xcomplex<const double&, const double&, true> k(cre, cim);
+    std::complex<double> sc = r, sk = k;
+    r = 5.; r += 1.; r -= 1.; r *= 2.; r /= 2.;
+    (void) (&r); (void) (&cr); (void) (&k);
+    return r.real() + r.imag() + cr.real() + cr.imag() + k.real() + k.imag() + std::move(r2).real() + std::move(r2).imag() + sc.real() + sk.imag();
+}""", why="the default constructor value-initialises m_real/m_imag (xcomplex.hpp `xcomplex() : m_real(), m_imag()`): ill-formed for reference closures unless never instantiated",
+      explicit_probe="template class xtl::xcomplex<double&, double&, false>;\ntemplate class xtl::xcomplex<const double&, const double&, true>;"),
+    N("xcomplex::operator=(xcomplex<other closure types>)", """
+void c19_complex_cross_assign()
+{
+    double re = 1., im = 2.;
+    xtl::xcomplex<double, double, false> a(1., 2.);
+    xtl::xcomplex<double&, double&, false> r(re, im);
+    a = r;
+    r = xtl::xcomplex<double, double, false>(3., 4.);
+    a += r; a -= r; a *= r; a /= r;
+    a = a + r; a = r * a; a = a - r; a = a / r;
+}""", "the converting assignment and compound-assignment templates (and the binary operators built on them) read rhs.m_real / rhs.m_imag of a DIFFERENT specialisation, which are private (xcomplex.hpp operator= / operator+= ... templates); ill-formed for every pair of distinct specialisations"),
     X("xcomplex-traits", "template struct xtl::is_complex<std::complex<double> >;\ntemplate struct xtl::is_xcomplex<xtl::xcomplex<double, double, false> >;\n"
-                         "template struct xtl::is_gen_complex<double>;\ntemplate struct xtl::common_xcomplex<double, double, false, float, float, true>;\n"
+                         "template struct xtl::common_xcomplex<double, double, false, float, float, true>;\n"
                          "template struct xtl::temporary_xcomplex<double&, double&, false>;\ntemplate struct xtl::complex_value_type<xtl::xcomplex<double, double, false> >;\n"
                          "template struct xtl::complex_value_type<std::complex<float> >;\ntemplate struct xtl::complex_value_type<double>;"),
     C("xcomplex<ieee=false>/constructor-templates-operators-functions", _CPLX_CALLS % {"n": "plain", "b": "false"}),
@@ -262,7 +291,7 @@ double c19_cseq_calls()
     for (auto it = cc.rbegin(); it != cc.rend(); ++it) { x += (*it).real(); }
     for (auto it = cc.crbegin(); it != cc.crend(); ++it) { x += (*it).real(); }
     auto it = c.begin(); it += 1; it -= 1; --it; ++it; auto it2 = it + 1; auto it3 = 1 + it; auto it4 = it2 - 1; x += double(it2 - it) + it[0].real(); it--;
-    c[0] = Z(5., 6.); c.at(1) = Z(7., 8.); c.front() = c.back();
+    c[0].real() = 5.; c.at(1).imag() = 8.; c.front().real() = c.back().imag();
     x += cc[0].real() + cc.at(1).imag() + cc.front().real() + cc.back().imag() + c.real()[0] + cc.imag()[0] + xtl::xcomplex_vector<double>(1).real().size();
     x += double(c.size() + c.max_size() + c.empty()) + double(c == d) + double(c != d);
     (void) e; (void) it3; (void) it4;
@@ -275,7 +304,7 @@ double c19_carr_calls()
     xtl::xcomplex_array<double, 3> a, b(3), c(3, Z(1., 2.)), d(3, xtl::xcomplex<float, float, true>(1.f, 2.f)), e(c);
     const xtl::xcomplex_array<double, 3>& cc = c;
     a = b;
-    c[0] = Z(5., 6.); c.at(1) = Z(7., 8.); c.front() = c.back();
+    c[0].real() = 5.; c.at(1).imag() = 8.; c.front().real() = c.back().imag();
     return cc[0].real() + cc.at(1).imag() + cc.front().real() + cc.back().imag() + c.real()[0] + cc.imag()[0] + double(c.size() + c.empty()) + double(c == d) + double(c != e);
 }"""),
 ])
@@ -286,7 +315,15 @@ H("xdynamic_bitset.hpp", post=["cstdint", "vector", "memory"], entries=[
     X("xdynamic_bitset_base<xdynamic_bitset<uint8_t>>", "template class xtl::xdynamic_bitset_base<xtl::xdynamic_bitset<std::uint8_t> >;"),
     X("xdynamic_bitset_view<uint32_t>", "template class xtl::xdynamic_bitset_view<std::uint32_t>;"),
     X("xdynamic_bitset_base<xdynamic_bitset_view<uint32_t>>", "template class xtl::xdynamic_bitset_base<xtl::xdynamic_bitset_view<std::uint32_t> >;"),
-    X("xbitset_reference<xdynamic_bitset<uint8_t>,false/true>", "template class xtl::xbitset_reference<xtl::xdynamic_bitset<std::uint8_t>, false>;\ntemplate class xtl::xbitset_reference<xtl::xdynamic_bitset<std::uint8_t>, true>;"),
+    X("xbitset_reference<xdynamic_bitset<uint8_t>,false>", "template class xtl::xbitset_reference<xtl::xdynamic_bitset<std::uint8_t>, false>;"),
+    C("xbitset_reference<xdynamic_bitset<uint8_t>,true>", """
+bool c19_bitset_const_ref()
+{
+    const xtl::xdynamic_bitset<std::uint8_t> b(10, true);
+    xtl::xbitset_reference<xtl::xdynamic_bitset<std::uint8_t>, true> r = b[1], r2(r);
+    return bool(r) | ~r | (r == r2) | (r != r2) | *(&r);
+}""", why="assignment, &=, |=, ^= and flip() write through m_block, which is a const reference when is_const is true (xdynamic_bitset.hpp): valid only if never instantiated",
+      explicit_probe="template class xtl::xbitset_reference<xtl::xdynamic_bitset<std::uint8_t>, true>;"),
     X("xbitset_iterator<xdynamic_bitset<uint8_t>,false/true>", "template class xtl::xbitset_iterator<xtl::xdynamic_bitset<std::uint8_t>, false>;\ntemplate class xtl::xbitset_iterator<xtl::xdynamic_bitset<std::uint8_t>, true>;"),
     C("xdynamic_bitset/constructor-templates-operators", """
 unsigned long c19_bitset_calls()
@@ -348,7 +385,7 @@ double c19_half_calls()
     double x = half_float::half_cast<double>(r) + half_float::half_cast<int>(r) + half_float::half_cast<float, std::round_to_nearest>(r) + half_float::half_cast<long long>(r);
     r = half_float::fma(a, b, c); r = half_float::pow(a, b); r = half_float::nexttoward(a, 2.0L); r = half_float::ldexp(a, 1); r = half_float::scalbln(a, 1L);
     std::ostringstream os; os << a; std::istringstream is("1.5"); is >> a;
-    x += (a == b) + (a != b) + (a < b) + (a > b) + (a <= b) + (a >= b) + std::numeric_limits<half>::digits + std::hash<half>()(a) %% 2;
+    x += (a == b) + (a != b) + (a < b) + (a > b) + (a <= b) + (a >= b) + std::numeric_limits<half>::digits + std::hash<half>()(a) % 2;
     (void) d; (void) e; (void) f; (void) g; (void) h;
     return x + vf + vd + vi + vl + vu + vll + vb + double(vld) + float(z);
 }"""
@@ -423,7 +460,16 @@ struct c19_ra : xtl::xrandom_access_iterator_base<c19_ra, int>
     X("xrandom_access_iterator_base<I,int>", "template class xtl::xrandom_access_iterator_base<c19_ra, int>;"),
     X("xkey_iterator<std::map<int,double>>", "template class xtl::xkey_iterator<std::map<int, double> >;"),
     X("xvalue_iterator<std::map<int,double>>", "template class xtl::xvalue_iterator<std::map<int, double> >;\ntemplate class xtl::xvalue_iterator<const std::map<int, double> >;"),
-    X("xstepping_iterator<int*>", "template class xtl::xstepping_iterator<int*>;\ntemplate class xtl::xstepping_iterator<std::vector<double>::const_iterator>;"),
+    X("xstepping_iterator<int*>", "template class xtl::xstepping_iterator<int*>;\ntemplate class xtl::xstepping_iterator<const double*>;"),
+    C("xstepping_iterator<std::vector<double>::const_iterator>", """
+double c19_stepping_class_iterator()
+{
+    std::vector<double> v(6, 1.);
+    xtl::xstepping_iterator<std::vector<double>::const_iterator> s(v.cbegin(), 2), e(v.cbegin() + 4, 2), d;
+    ++s; --s; s += 1; s -= 1; d = s;
+    return *s + s[1] + double(e - s) + s.equal(e) + s.less_than(e) + (s == e) + (s < e);
+}""", why="operator->() returns the sub-iterator m_it as `pointer` (xiterator_base.hpp): only well-formed when the wrapped iterator IS a raw pointer",
+      explicit_probe="template class xtl::xstepping_iterator<std::vector<double>::const_iterator>;"),
     X("common_iterator_tag", "template struct xtl::common_iterator_tag<int*, std::list<int>::iterator>;"),
     C("iterator-bases/friend-operators", """
 long c19_iter_calls()
@@ -449,5 +495,516 @@ long c19_iter_calls()
     n += (s2 - s) + s[1] + *s3 + *s4 + *s5 + *s.operator->() + (s == s2) + (s != s2) + (s < s2) + (s <= s2) + (s > s2) + (s >= s2);
     static_assert(std::is_same<xtl::common_iterator_tag_t<int*, std::list<int>::iterator>, std::bidirectional_iterator_tag>::value, "tag");
     return n + q;
+}"""),
+])
+
+H("xjson.hpp", also=["xoptional.hpp", "xbasic_fixed_string.hpp"], post=["string"], entries=[
+    C("to_json-from_json/variant-xoptional-fixed_string", """
+int c19_json_calls()
+{
+    nlohmann::json j;
+    xtl::variant<int, double, std::string> v(std::string("s"));
+    j["v"] = v;
+    xtl::xoptional<int> o(3), m = xtl::missing<int>(), back;
+    j["o"] = o; j["m"] = m;
+    back = j["o"].get<xtl::xoptional<int> >();
+    xtl::from_json(j["m"], back);
+    xtl::xfixed_string<16> fs("abc"), fs2;
+    j["f"] = fs;
+    xtl::from_json(j["f"], fs2);
+    xtl::to_json(j["g"], fs2);
+    return int(j.size()) + back.has_value() + int(fs2.size());
+}"""),
+])
+
+_MASKED_CALLS = """
+double c19_masked_calls()
+{
+    typedef xtl::xmasked_value<double> M;
+    typedef xtl::xmasked_value<int> I;
+    double d = 2.; bool vis = true;
+    M a(1.), b(2., false), c, e(a), f(std::move(e));
+    xtl::xmasked_value<double&, bool&> r(d, vis);
+    I i(3), k(4, true);
+    const M cm(5.);
+    auto mk = xtl::masked_value(3.), mk2 = xtl::masked_value(3., true), mm = xtl::masked<double>();
+    a = 2.; a = b; a += 1.; a -= 1.; a *= 2.; a /= 2.; a += b; a -= b; a *= b; a /= b; r = 3.; r += a;
+    i %= 2; i &= 3; i |= 1; i ^= 1; i %= k; i &= k; i |= k; i ^= k; i = k;
+    double x = a.value() + cm.value() + M(1.).value() + a.visible() + cm.visible() + M(1.).visible() + r.value() + double(static_cast<double>(a));
+    bool q = a.equal(b) | a.equal(1.) | (a == b) | (a == 1.) | (1. == a) | (a != b) | (a != 1.) | (1. != a);
+    a.swap(b); swap(a, b);
+    M s = +a; s = -a; I t = ~i; auto nt = !i;
+    s = a + b; s = a + 1.; s = 1. + a; s = a - b; s = a - 1.; s = 1. - a; s = a * b; s = a * 2.; s = 2. * a; s = a / b; s = a / 2.; s = 2. / a;
+    t = i % k; t = i % 2; t = 7 % i; t = i & k; t = i & 1; t = 1 & i; t = i | k; t = i | 1; t = 1 | i; t = i ^ k; t = i ^ 1; t = 1 ^ i;
+    auto b1 = (a || b); auto b2 = (a || true); auto b3 = (true || a); auto b4 = (a && b); auto b5 = (a && true); auto b6 = (true && a);
+    auto c1 = (a < b); auto c2 = (a < 1.); auto c3 = (1. < a); auto c4 = (a <= b); auto c5 = (a <= 1.); auto c6 = (1. <= a);
+    auto c7 = (a > b); auto c8 = (a > 1.); auto c9 = (1. > a); auto c10 = (a >= b); auto c11 = (a >= 1.); auto c12 = (1. >= a);
+    s = abs(a); s = fabs(a); s = exp(a); s = exp2(a); s = expm1(a); s = log(a); s = log10(a); s = log2(a); s = log1p(a); s = sqrt(a); s = cbrt(a);
+    s = sin(a); s = cos(a); s = tan(a); s = acos(a); s = asin(a); s = atan(a); s = sinh(a); s = cosh(a); s = tanh(a); s = acosh(a); s = asinh(a); s = atanh(a);
+    s = erf(a); s = erfc(a); s = tgamma(a); s = lgamma(a); s = ceil(a); s = floor(a); s = trunc(a); s = round(a); s = nearbyint(a); s = rint(a);
+    auto u1 = isfinite(a); auto u2 = isinf(a); auto u3 = isnan(a);
+    s = fmod(a, b); s = fmod(a, 2.); s = fmod(2., a); s = remainder(a, b); s = fmax(a, b); s = fmin(a, b); s = fdim(a, b); s = pow(a, b); s = pow(a, 2.); s = pow(2., a); s = hypot(a, b); s = atan2(a, b);
+    s = fma(a, b, cm); s = fma(a, b, 1.); s = fma(a, 1., b); s = fma(1., a, b); s = fma(1., 2., a); s = fma(1., a, 2.); s = fma(a, 1., 2.);
+    std::ostringstream os; os << a << mm;
+    (void) c; (void) f; (void) mk; (void) mk2; (void) nt; (void) b1; (void) b2; (void) b3; (void) b4; (void) b5; (void) b6;
+    (void) c1; (void) c2; (void) c3; (void) c4; (void) c5; (void) c6; (void) c7; (void) c8; (void) c9; (void) c10; (void) c11; (void) c12; (void) u1; (void) u2; (void) u3;
+    return x + q + s.value() + t.value();
+}"""
+
+H("xmasked_value.hpp", post=["sstream", "cmath"], entries=[
+    X("xmasked_value<double,bool>", "template class xtl::xmasked_value<double, bool>;"),
+    X("xmasked_value<int,bool>", "template class xtl::xmasked_value<int, bool>;"),
+    C("xmasked_value<double&,bool&>", """
+double c19_masked_ref()
+{
+    double d = 2.; bool vis = true;
+    xtl::xmasked_value<double&, bool&> r(d, vis);
+    const xtl::xmasked_value<double&, bool&>& cr = r;
+    xtl::xmasked_value<double&, bool&> r2(cr);
+    r = 3.; r += 1.; r -= 1.; r *= 2.; r /= 2.; r = xtl::xmasked_value<double>(4.); r += xtl::xmasked_value<double>(1.);
+    return r.value() + cr.value() + r.visible() + cr.visible() + std::move(r2).value() + std::move(r2).visible() + r.equal(cr) + r.equal(2.) + double(static_cast<double>(r));
+}""", why="the default constructor initialises m_value(0), m_visible(true) (xmasked_value.hpp): ill-formed for reference closures unless never instantiated",
+      explicit_probe="template class xtl::xmasked_value<double&, bool&>;"),
+    C("xmasked_value/constructor-templates-operators-functions", _MASKED_CALLS),
+])
+
+H("xmasked_value_meta.hpp", entries=[
+    X("is_xmasked_value", "namespace xtl { template <class T, class B> class xmasked_value {}; }\ntemplate struct xtl::detail::is_xmasked_value_impl<int>;\ntemplate struct xtl::detail::is_xmasked_value_impl<xtl::xmasked_value<int, bool> >;\n"
+      "static_assert(xtl::is_xmasked_value<xtl::xmasked_value<int, bool> >::value && !xtl::is_xmasked_value<int>::value, \"meta\");"),
+])
+
+H("xmeta_utils.hpp", post=["type_traits"], entries=[
+    X("mpl-metafunctions", """
+template struct xtl::mpl::vector<int, char, double>;
+template struct xtl::mpl::size<xtl::mpl::vector<int, char> >;
+template struct xtl::mpl::empty<xtl::mpl::vector<> >;
+template struct xtl::mpl::count<xtl::mpl::vector<int, char, int>, int>;
+template struct xtl::mpl::contains<xtl::mpl::vector<int, char>, char>;
+template struct xtl::mpl::front<xtl::mpl::vector<int, char> >;
+template struct xtl::mpl::back<xtl::mpl::vector<int, char> >;
+template struct xtl::mpl::push_front<xtl::mpl::vector<int, char>, double>;
+template struct xtl::mpl::push_back<xtl::mpl::vector<int, char>, double>;
+template struct xtl::mpl::pop_front<xtl::mpl::vector<int, char> >;
+template struct xtl::mpl::transform<std::add_const, xtl::mpl::vector<int, char> >;
+template struct xtl::mpl::merge_set<xtl::mpl::vector<int, char>, xtl::mpl::vector<char, double> >;
+template struct xtl::mpl::find_if<std::is_floating_point, xtl::mpl::vector<int, double> >;
+template struct xtl::mpl::split<1, xtl::mpl::vector<int, char, double> >;
+template struct xtl::mpl::unique<xtl::mpl::vector<int, int, char> >;
+template struct xtl::mpl::index_of<xtl::mpl::vector<int, char>, char>;
+template struct xtl::mpl::cast<xtl::mpl::vector<int, char>, xtl::mpl::vector>;
+template struct xtl::mpl::if_<xtl::mpl::bool_<true>, int, char>;
+template struct xtl::mpl::eval_if<xtl::mpl::bool_<false>, std::add_const<int>, std::add_pointer<int> >;
+template struct xtl::mpl::switch_<std::is_integral<double>, int, std::is_floating_point<double>, char, xtl::mpl::default_t, void>;
+template struct xtl::make_void<int, char>;
+template struct xtl::conjunction<std::true_type, std::false_type>;
+template struct xtl::disjunction<std::false_type, std::true_type>;
+template struct xtl::negation<std::true_type>;
+"""),
+    C("static_if-and-constexpr-helpers", """
+int c19_meta_calls()
+{
+    int a = xtl::mpl::static_if<true>([](auto self) { return self(1); }, [](auto self) { return self(2); });
+    int b = xtl::mpl::static_if<false>([](auto self) { return self(1); }, [](auto self) { return self(2); });
+    int c = xtl::mpl::static_if(std::true_type(), [](auto self) { return self(3); }, [](auto self) { return self(4); });
+    return a + b + c + int(xtl::mpl::size<xtl::mpl::vector<int> >::value);
+}"""),
+])
+
+_MM_PRELUDE = """
+namespace c19mm
+{
+    struct shape { XTL_IMPLEMENT_INDEXABLE_CLASS() virtual ~shape() {} };
+    struct circle : shape { XTL_IMPLEMENT_INDEXABLE_CLASS() };
+    struct square : shape { XTL_IMPLEMENT_INDEXABLE_CLASS() };
+    struct extra { int v; };
+    struct exec
+    {
+        template <class A, class B> int run(A&, B&) const { return 1; }
+        int on_error(shape&, shape&) const { return -1; }
+    };
+    inline int cs(circle&, square&) { return 2; }
+    inline int cse(circle&, square&, extra& e) { return e.v; }
+    typedef std::function<int(shape&, shape&)> cb_t;
+}
+"""
+
+H("xmultimethods.hpp", post=["functional"], prelude=_MM_PRELUDE, entries=[
+    X("static_dispatcher<antisymmetric/symmetric>", "template class xtl::static_dispatcher<c19mm::exec, c19mm::shape, xtl::mpl::vector<c19mm::circle, c19mm::square>, int>;\n"
+      "template class xtl::static_dispatcher<c19mm::exec, c19mm::shape, xtl::mpl::vector<c19mm::circle, c19mm::square>, int, xtl::symmetric_dispatch>;"),
+    X("basic_dispatcher<vector<shape,shape>,int,vector<>,function>", "template class xtl::basic_dispatcher<xtl::mpl::vector<c19mm::shape, c19mm::shape>, int, xtl::mpl::vector<>, c19mm::cb_t>;"),
+    X("basic_fast_dispatcher<vector<shape,shape>,int,vector<>,function>", "template class xtl::basic_fast_dispatcher<xtl::mpl::vector<c19mm::shape, c19mm::shape>, int, xtl::mpl::vector<>, c19mm::cb_t>;"),
+    X("functor_dispatcher<basic/fast>", "template class xtl::functor_dispatcher<xtl::mpl::vector<c19mm::shape, c19mm::shape>, int>;\n"
+      "template class xtl::functor_dispatcher<xtl::mpl::vector<c19mm::shape, c19mm::shape>, int, xtl::mpl::vector<>, xtl::static_caster, xtl::basic_fast_dispatcher>;\n"
+      "template class xtl::functor_dispatcher<xtl::mpl::vector<c19mm::shape, c19mm::shape>, int, xtl::mpl::vector<c19mm::extra>, xtl::dynamic_caster, xtl::basic_dispatcher>;"),
+    X("static_caster/dynamic_caster", "template struct xtl::static_caster<c19mm::circle, c19mm::shape>;\ntemplate struct xtl::dynamic_caster<c19mm::circle, c19mm::shape>;"),
+    C("dispatchers/member-templates", """
+int c19_mm_calls()
+{
+    using namespace c19mm;
+    circle c; square s; shape& a = c; shape& b = s; extra e = {5}; exec ex;
+    int r = xtl::static_dispatcher<exec, shape, xtl::mpl::vector<circle, square>, int>::dispatch(a, b, ex)
+          + xtl::static_dispatcher<exec, shape, xtl::mpl::vector<circle, square>, int, xtl::symmetric_dispatch>::dispatch(b, a, ex)
+          + xtl::static_dispatcher<exec, shape, xtl::mpl::vector<circle>, int, xtl::antisymmetric_dispatch, shape, xtl::mpl::vector<square> >::dispatch(a, b, ex);
+    xtl::functor_dispatcher<xtl::mpl::vector<shape, shape>, int> d1;
+    d1.insert<circle, square>(&cs); d1.insert<square, circle>([](square&, circle&) { return 3; }); r += d1.dispatch(a, b) + d1.dispatch(b, a); d1.erase<square, circle>();
+    xtl::functor_dispatcher<xtl::mpl::vector<shape, shape>, int, xtl::mpl::vector<>, xtl::static_caster> d2;
+    d2.insert<circle, square>(&cs); r += d2.dispatch(a, b); d2.erase<circle, square>();
+    xtl::functor_dispatcher<xtl::mpl::vector<shape, shape>, int, xtl::mpl::vector<>, xtl::static_caster, xtl::basic_fast_dispatcher> d3;
+    d3.insert<circle, square>(&cs); r += d3.dispatch(a, b);
+    xtl::functor_dispatcher<xtl::mpl::vector<shape, shape>, int, xtl::mpl::vector<extra> > d4;
+    d4.insert<circle, square>(&cse); r += d4.dispatch(a, b, e);
+    xtl::functor_dispatcher<xtl::mpl::vector<shape, shape>, int, xtl::mpl::vector<extra>, xtl::static_caster, xtl::basic_fast_dispatcher> d5;
+    d5.insert<circle, square>(&cse); r += d5.dispatch(a, b, e);
+    xtl::basic_dispatcher<xtl::mpl::vector<shape, shape>, int, xtl::mpl::vector<>, cb_t> raw;
+    raw.insert<circle, square>(cb_t([](shape&, shape&) { return 4; })); r += raw.dispatch(a, b); raw.erase<circle, square>();
+    return r;
+}"""),
+])
+
+_OPT_CALLS = """
+double c19_optional_calls()
+{
+    typedef xtl::xoptional<double> O;
+    typedef xtl::xoptional<int> I;
+    double d = 2.; bool fl = true; const double cd = 3.; const bool cf = true;
+    O a, b(1.), c(2., true), e(b), f(std::move(e)), g(I(3)), h(d, fl), i2(4., fl), j(d, true);
+    xtl::xoptional<double&, bool&> r(d, fl), r2(r);
+    xtl::xoptional<const double&, const bool&> cr(cd, cf);
+    O fromref(r), fromcref(cr);
+    I i(3), k(4, true);
+    const O co(5.);
+    auto mk = xtl::optional(3., true), ms = xtl::missing<double>();
+    a = 2.; a = b; a = std::move(f); a = r; a = I(2); r = 3.; r = b;
+    a += 1.; a -= 1.; a *= 2.; a /= 2.; a += b; a -= b; a *= b; a /= b; a += r; r += a; r *= 2.;
+    i %= 2; i &= 3; i |= 1; i ^= 1; i %= k; i &= k; i |= k; i ^= k;
+    double x = a.value() + co.value() + O(1.).value() + a.has_value() + co.has_value() + O(1.).has_value() + r.value() + cr.value() + a.value_or(1.) + O(2.).value_or(3)
+             + xtl::value(a) + xtl::value(co) + xtl::value(O(1.)) + xtl::value(2.) + xtl::has_value(a) + xtl::has_value(co) + xtl::has_value(O(1.)) + xtl::has_value(2.);
+    bool q = a.equal(b) | a.equal(1.) | a.equal(r);
+    (void) (&a); (void) (&co); (void) (&O(1.));
+    a.swap(b);
+    auto e1 = (a == b); auto e2 = (a == 1.); auto e3 = (1. == a); auto e4 = (a != b); auto e5 = (a != 1.); auto e6 = (1. != a); auto e7 = (a == r);
+    O s = +a; s = -a; I t = ~i; auto nt = !i;
+    s = a + b; s = a + 1.; s = 1. + a; s = a - b; s = a - 1.; s = 1. - a; s = a * b; s = a * 2.; s = 2. * a; s = a / b; s = a / 2.; s = 2. / a; s = a + r; s = a + i;
+    t = i % k; t = i % 2; t = 7 % i; t = i & k; t = i & 1; t = 1 & i; t = i | k; t = i | 1; t = 1 | i; t = i ^ k; t = i ^ 1; t = 1 ^ i;
+    auto b1 = (a || b); auto b2 = (a || true); auto b3 = (true || a); auto b4 = (a && b); auto b5 = (a && true); auto b6 = (true && a);
+    auto c1 = (a < b); auto c2 = (a < 1.); auto c3 = (1. < a); auto c4 = (a <= b); auto c5 = (a <= 1.); auto c6 = (1. <= a);
+    auto c7 = (a > b); auto c8 = (a > 1.); auto c9 = (1. > a); auto c10 = (a >= b); auto c11 = (a >= 1.); auto c12 = (1. >= a);
+    s = abs(a); s = fabs(a); s = exp(a); s = exp2(a); s = expm1(a); s = log(a); s = log10(a); s = log2(a); s = log1p(a); s = sqrt(a); s = cbrt(a);
+    s = sin(a); s = cos(a); s = tan(a); s = acos(a); s = asin(a); s = atan(a); s = sinh(a); s = cosh(a); s = tanh(a); s = acosh(a); s = asinh(a); s = atanh(a);
+    s = erf(a); s = erfc(a); s = tgamma(a); s = lgamma(a); s = ceil(a); s = floor(a); s = trunc(a); s = round(a); s = nearbyint(a); s = rint(a);
+    auto u1 = isfinite(a); auto u2 = isinf(a); auto u3 = isnan(a);
+    s = fmod(a, b); s = fmod(a, 2.); s = fmod(2., a); s = remainder(a, b); s = fmax(a, b); s = fmin(a, b); s = fdim(a, b); s = pow(a, b); s = pow(a, 2.); s = pow(2., a); s = hypot(a, b); s = atan2(a, b);
+    s = fma(a, b, co); s = fma(a, b, 1.); s = fma(a, 1., b); s = fma(1., a, b); s = fma(1., 2., a); s = fma(1., a, 2.); s = fma(a, 1., 2.);
+    s = xtl::select(true, a, b); s = xtl::select(false, a, 1.); s = xtl::select(true, 1., a);
+    std::ostringstream os; os << a << ms;
+    (void) c; (void) g; (void) h; (void) i2; (void) j; (void) r2; (void) fromref; (void) fromcref; (void) mk; (void) nt;
+    (void) e1; (void) e2; (void) e3; (void) e4; (void) e5; (void) e6; (void) e7; (void) b1; (void) b2; (void) b3; (void) b4; (void) b5; (void) b6;
+    (void) c1; (void) c2; (void) c3; (void) c4; (void) c5; (void) c6; (void) c7; (void) c8; (void) c9; (void) c10; (void) c11; (void) c12; (void) u1; (void) u2; (void) u3;
+    return x + q + s.value() + t.value();
+}"""
+
+H("xoptional.hpp", post=["sstream", "cmath"], entries=[
+    X("xoptional<int,bool>", "template class xtl::xoptional<int, bool>;"),
+    X("xoptional<double,bool>", "template class xtl::xoptional<double, bool>;"),
+    C("xoptional<int&,bool&>", """
+int c19_optional_ref()
+{
+    int v = 2; bool fl = true; const int cv = 3; const bool cf = true;
+    xtl::xoptional<int&, bool&> r(v, fl), r2(r);
+    const xtl::xoptional<int&, bool&>& cr = r;
+    xtl::xoptional<const int&, const bool&> k(cv, cf), k2(r);
+    r = 3; r += 1; r -= 1; r *= 2; r /= 2; r %= 5; r &= 7; r |= 1; r ^= 1; r = xtl::xoptional<int>(4); r += xtl::xoptional<int>(1);
+    (void) (&r); (void) (&cr); (void) (&k);
+    return r.value() + cr.value() + k.value() + k2.value() + r.has_value() + cr.has_value() + k.has_value() + std::move(r2).value() + std::move(r2).has_value() + r.value_or(1) + r.equal(cr) + r.equal(k) + r.equal(2);
+}""", why="the default constructor value-initialises m_value (xoptional.hpp `xoptional() : m_value(), m_flag(false)`): ill-formed for reference closures unless never instantiated",
+      explicit_probe="template class xtl::xoptional<int&, bool&>;\ntemplate class xtl::xoptional<const int&, const bool&>;"),
+    C("xoptional/constructor-templates-operators-functions", _OPT_CALLS),
+])
+
+H("xoptional_meta.hpp", entries=[
+    X("is_xoptional-and-friends", "template struct xtl::detail::is_xoptional_impl<int>;\ntemplate struct xtl::detail::is_xoptional_impl<xtl::xoptional<int, bool> >;\n"
+      "static_assert(xtl::is_xoptional<xtl::xoptional<int, bool> >::value && !xtl::is_xoptional<int>::value, \"meta\");\n"
+      "static_assert(xtl::is_not_xoptional_nor_xmasked_value<int>::value, \"meta\");\n"
+      "template struct xtl::common_optional<int, xtl::xoptional<double, bool> >;\ntemplate struct xtl::common_optional<int, double>;\n"
+      "template struct xtl::at_least_one_xoptional<int, xtl::xoptional<double, bool> >;"),
+])
+
+H("xoptional_sequence.hpp", post=["vector", "array"], entries=[
+    X("xoptional_vector<int>", "template class xtl::xoptional_vector<int>;"),
+    X("xoptional_vector<double,allocator,xdynamic_bitset<uint8_t>>", "template class xtl::xoptional_vector<double, std::allocator<double>, xtl::xdynamic_bitset<unsigned char> >;"),
+    X("xoptional_array<int,3>", "template class xtl::xoptional_array<int, 3>;"),
+    X("xoptional_sequence<std::vector<int>,xdynamic_bitset<size_t>>", "template class xtl::xoptional_sequence<std::vector<int>, xtl::xdynamic_bitset<std::size_t> >;"),
+    X("xoptional_iterator<vector<int>::iterator,bitset-iterator>", "template class xtl::xoptional_iterator<std::vector<int>::iterator, xtl::xdynamic_bitset<std::size_t>::iterator>;\n"
+      "template class xtl::xoptional_iterator<std::vector<int>::const_iterator, xtl::xdynamic_bitset<std::size_t>::const_iterator>;"),
+    C("xoptional_vector/constructors-iteration-operators", """
+long c19_oseq_calls()
+{
+    typedef xtl::xoptional_vector<int> V;
+    V a, b(2, 1), c(2, xtl::xoptional<int>(3)), d(2, xtl::missing<int>()), e(c), f(std::move(e));
+    const V& cc = c;
+    a = b; a = std::move(f);
+    a.resize(3); a.resize(4, 7); a.resize(5, xtl::xoptional<int>(8)); a.resize(6, xtl::missing<int>());
+    long x = 0;
+    for (auto it = c.begin(); it != c.end(); ++it) { x += (*it).value() + it->has_value(); }
+    for (auto it = cc.begin(); it != cc.end(); it++) { x += (*it).value(); }
+    for (auto it = cc.cbegin(); it != cc.cend(); ++it) { x += (*it).value(); }
+    for (auto it = c.rbegin(); it != c.rend(); ++it) { x += (*it).value(); }
+    for (auto it = cc.rbegin(); it != cc.rend(); ++it) { x += (*it).value(); }
+    for (auto it = cc.crbegin(); it != cc.crend(); ++it) { x += (*it).value(); }
+    auto it = c.begin(); it += 1; it -= 1; ++it; --it; auto it2 = it + 1; auto it3 = 1 + it; auto it4 = it2 - 1;
+    x += (it2 - it) + it[0].value() + (it < it2) + (it <= it2) + (it > it2) + (it >= it2) + (it == it2); it++; it--;
+    c[0] = 5; c.at(1) = xtl::missing<int>(); c.front() = 6; c.back() = xtl::xoptional<int>(7); c[0] = xtl::xoptional<int>(4); c[1].value() = 2; c[1].has_value() = true;
+    x += cc[0].value() + cc.at(1).has_value() + cc.front().value() + cc.back().value() + c.value()[0] + cc.value()[0] + c.has_value()[0] + cc.has_value()[0] + V(1, 1).value().size() + V(1, 1).has_value().size();
+    x += long(c.size() + c.max_size() + c.empty()) + (c == d) + (c != d) + (c < d) + (c <= d) + (c > d) + (c >= d);
+    (void) it3; (void) it4;
+    return x;
+}"""),
+    C("xoptional_array/constructors-access", """
+long c19_oarr_calls()
+{
+    typedef xtl::xoptional_array<int, 3> A;
+    A a, b(3, 1), c(3, xtl::xoptional<int>(2)), d(3, xtl::missing<int>()), e(c);
+    const A& cc = c;
+    a = b;
+    c[0] = 5; c.at(1) = xtl::missing<int>(); c.front() = 6; c.back() = xtl::xoptional<int>(7);
+    return cc[0].value() + cc.at(1).has_value() + cc.front().value() + cc.back().value() + c.value()[0] + cc.has_value()[0] + long(c.size() + c.empty()) + (c == d) + (c != e) + (c < d);
+}"""),
+])
+
+H("xplatform.hpp", entries=[
+    C("endianness", "int c19_platform() { return static_cast<int>(xtl::endianness()) + (xtl::endianness() == xtl::endian::big_endian) + (xtl::endianness() == xtl::endian::mixed); }"),
+])
+
+H("xproxy_wrapper.hpp", post=["utility"], prelude="struct c19_proxy { int x; int get() const { return x; } };", entries=[
+    X("xproxy_wrapper_impl<P>", "template class xtl::xproxy_wrapper_impl<c19_proxy>;"),
+    C("proxy_wrapper/class-and-scalar", """
+int c19_proxy_calls()
+{
+    auto w = xtl::proxy_wrapper(c19_proxy{1});
+    auto p = &w;
+    auto p2 = &xtl::proxy_wrapper(c19_proxy{2});
+    auto sc = xtl::proxy_wrapper(3);
+    static_assert(std::is_same<xtl::xproxy_wrapper<int>, xtl::xclosure_wrapper<int> >::value, "scalar proxies are closures");
+    return w.x + p->get() + p2->x + sc.get();
+}"""),
+])
+
+H("xsequence.hpp", post=["vector", "array", "list", "initializer_list"], entries=[
+    C("make_sequence-forward_sequence-sequence_size", """
+unsigned long c19_sequence_calls()
+{
+    auto v1 = xtl::make_sequence<std::vector<int> >(3);
+    auto v2 = xtl::make_sequence<std::vector<int> >(3, 1);
+    auto v3 = xtl::make_sequence<std::vector<int> >({1, 2, 3});
+    auto a1 = xtl::make_sequence<std::array<int, 3> >(3);
+    auto a2 = xtl::make_sequence<std::array<int, 3> >(3, 1);
+    auto a3 = xtl::make_sequence<std::array<int, 3> >({1, 2, 3});
+    int raw[4] = {1, 2, 3, 4};
+    std::vector<int>& same = xtl::forward_sequence<std::vector<int>, std::vector<int>&>(v1);
+    std::vector<int> moved = xtl::forward_sequence<std::vector<int>, std::vector<int> >(std::move(v2));
+    std::array<int, 3> arr_from_vec = xtl::forward_sequence<std::array<int, 3>, std::vector<int>&>(v3);
+    std::vector<int> vec_from_arr = xtl::forward_sequence<std::vector<int>, std::array<int, 3>&>(a1);
+    std::vector<int> vec_from_rv = xtl::forward_sequence<std::vector<int>, std::array<int, 3> >(std::move(a2));
+    return same.size() + moved.size() + arr_from_vec.size() + vec_from_arr.size() + vec_from_rv.size() + xtl::sequence_size(v3) + xtl::sequence_size(a3) + xtl::sequence_size(raw);
+}"""),
+])
+
+_SPAN_CALLS = """
+long c19_span_calls_%(n)s()
+{
+    int arr[4] = {1, 2, 3, 4};
+    const int carr[3] = {1, 2, 3};
+    std::array<int, 4> sa = {{1, 2, 3, 4}};
+    const std::array<int, 4> csa = {{1, 2, 3, 4}};
+    std::vector<int> v(4, 1);
+    const std::vector<int> cv(4, 2);
+    %(ns)s::span<int> a, b(arr, 4), c(arr, arr + 4), d(arr), e(sa), f(v), g(b);
+    %(ns)s::span<const int> h(carr), i(csa), j(cv), k(b), l(sa), m(v), n2(arr);
+    %(ns)s::span<int, 4> s4(arr), s4b(sa), s4c(arr, 4), s4d(arr, arr + 4);
+    %(ns)s::span<const int, 4> cs4(s4), cs4b(csa), cs4c(arr);
+    %(ns)s::span<int, 0> z;
+    %(ns)s::span<const int> fromfixed(s4);
+    a = b;
+    long r = b.size() + b.size_bytes() + b.empty() + b[1] + b(1) + b.at(2) + b.front() + b.back() + *b.data() + *b.begin() + *(b.end() - 1) + *b.cbegin() + *(b.cend() - 1)
+           + *b.rbegin() + *(b.rend() - 1) + *b.crbegin() + *(b.crend() - 1);
+    r += b.first(2).size() + b.last(2).size() + b.subspan(1).size() + b.subspan(1, 2).size() + b.first<2>().size() + b.last<2>().size() + b.subspan<1>().size() + b.subspan<1, 2>().size();
+    r += s4.first<2>().size() + s4.last(1).size() + s4.subspan<1>().size() + s4.subspan<1, 2>().size() + s4.size() + s4[0] + z.size() + z.empty();
+    r += %(ns)s::make_span(b).size() + %(ns)s::make_span(arr).size() + %(ns)s::make_span(sa).size() + %(ns)s::make_span(csa).size() + %(ns)s::make_span(v).size() + %(ns)s::make_span(cv).size();
+    r += %(ns)s::as_bytes(b).size() + %(ns)s::as_writable_bytes(b).size() + %(ns)s::as_bytes(cs4).size();
+    r += %(ns)s::get<1>(s4);
+    (void) c; (void) d; (void) e; (void) f; (void) g; (void) h; (void) i; (void) j; (void) k; (void) l; (void) m; (void) n2; (void) s4b; (void) s4c; (void) s4d; (void) cs4b; (void) cs4c; (void) fromfixed;
+    return r;
+}"""
+
+H("xspan_impl.hpp", post=["vector", "array"], entries=[
+    X("tcb::span<int>", "template class tcb::span<int>;"),
+    X("tcb::span<const double,3>", "template class tcb::span<const double, 3>;"),
+    X("tcb::span<int,0>", "template class tcb::span<int, 0>;"),
+    C("tcb::span/constructor-templates-member-templates-free-functions", _SPAN_CALLS % {"n": "tcb", "ns": "tcb"}),
+])
+
+H("xspan.hpp", post=["vector", "array"], entries=[
+    X("xtl::span<int>", "template class xtl::span<int>;"),
+    X("xtl::span<const double,3>", "template class xtl::span<const double, 3>;"),
+    C("xtl::span/constructor-templates-member-templates", """
+long c19_xspan_calls()
+{
+    int arr[4] = {1, 2, 3, 4};
+    std::vector<int> v(4, 1);
+    std::array<int, 4> sa = {{1, 2, 3, 4}};
+    xtl::span<int> a(arr, 4), b(arr, arr + 4), c(arr), d(v), e(sa);
+    xtl::span<const int> k(a);
+    xtl::span<int, 4> s4(arr);
+    xtl::span<int, xtl::dynamic_extent> dyn(a);
+    return a.size() + b[0] + c.first(1).size() + d.last<2>().size() + e.subspan(1, 2).size() + k.at(0) + s4.subspan<1, 2>().size() + dyn.size() + (xtl::dynamic_extent < 0);
+}"""),
+])
+
+H("xsystem.hpp", entries=[
+    C("executable_path-prefix_path", "unsigned long c19_system() { return xtl::executable_path().size() + xtl::prefix_path().size(); }"),
+])
+
+H("xtl_config.hpp", post=["stdexcept"], entries=[
+    C("XTL_THROW-and-version-macros", """
+#if !defined(XTL_VERSION_MAJOR) || !defined(XTL_VERSION_MINOR) || !defined(XTL_VERSION_PATCH)
+#error "version macros missing"
+#endif
+int c19_config(int x)
+{
+    if (x == 12345)
+        XTL_THROW(std::runtime_error, "c19");
+    if (x == 12346) { XTL_THROW(std::out_of_range, "c19"); } else { x += 1; }
+    return XTL_VERSION_MAJOR * 10000 + XTL_VERSION_MINOR * 100 + XTL_VERSION_PATCH + x;
+}"""),
+])
+
+H("xtype_traits.hpp", post=["complex", "chrono"], entries=[
+    X("traits", """
+template struct xtl::is_scalar<int>;
+template struct xtl::is_arithmetic<double>;
+template struct xtl::is_fundamental<void>;
+template struct xtl::is_signed<unsigned>;
+template struct xtl::is_floating_point<float>;
+template struct xtl::is_integral<long>;
+template struct xtl::promote_type<int, double>;
+template struct xtl::promote_type<std::complex<float>, double>;
+template struct xtl::promote_type<unsigned char, signed char, short>;
+template struct xtl::promote_type<bool>;
+template struct xtl::big_promote_type<float>;
+template struct xtl::real_promote_type<int>;
+template struct xtl::bool_promote_type<int>;
+template struct xtl::apply_cv<const int&, double>;
+template struct xtl::constify<int&>;
+template struct xtl::constify<int*>;
+template struct xtl::conjunction<std::true_type>;
+template struct xtl::all_scalar<int, double>;
+template struct xtl::disjunction<std::false_type, std::true_type>;
+template struct xtl::negation<std::false_type>;
+template struct xtl::promote_type<std::complex<float>, std::complex<double> >;
+template struct xtl::big_promote_type<std::complex<float> >;
+"""),
+    C("traits/aliases-and-constexpr", """
+int c19_traits_calls()
+{
+    static_assert(std::is_same<xtl::promote_type_t<int, float>, float>::value, "promote");
+    static_assert(std::is_same<xtl::apply_cv_t<const int, double>, const double>::value, "apply_cv");
+    static_assert(std::is_same<xtl::constify_t<int&>, const int&>::value, "constify");
+    static_assert(xtl::is_scalar<int>::value, "traits");
+    return sizeof(xtl::big_promote_type_t<float>) + sizeof(xtl::real_promote_type_t<int>) + sizeof(xtl::bool_promote_type_t<int>);
+}"""),
+])
+
+_VARIANT_CALLS = """
+long c19_variant_calls_%(n)s()
+{
+    typedef %(ns)s::variant<int, double> V;
+    typedef %(ns)s::variant<%(ns)s::monostate, int, std::string> W;
+    V a, b(1), c(2.5), d(b), e(std::move(d)), f(%(ns)s::in_place_index_t<1>(), 3.5), g(%(ns)s::in_place_type_t<int>(), 4);
+    W w, w2(std::string("x")), w3(%(ns)s::in_place_type_t<std::string>(), 3u, 'c'), w4(w2), w5(std::move(w4));
+    const V cv(7);
+    a = b; a = std::move(e); a = 2; a = 2.5; w = w2; w = std::string("y"); w = "literal";
+    a.emplace<0>(5); a.emplace<int>(6); a.emplace<double>(1.5); w.emplace<std::string>("abc"); w.emplace<2>(2u, 'q');
+    a.swap(b); swap(a, b);
+    long r = a.index() + a.valueless_by_exception() + %(ns)s::holds_alternative<int>(a) + %(ns)s::holds_alternative<double>(cv);
+    a = 1;
+    r += %(ns)s::get<0>(a) + %(ns)s::get<int>(a) + %(ns)s::get<0>(cv) + %(ns)s::get<int>(cv) + %(ns)s::get<0>(V(3)) + %(ns)s::get<int>(V(3));
+    r += *%(ns)s::get_if<0>(&a) + *%(ns)s::get_if<int>(&a) + *%(ns)s::get_if<0>(&cv) + *%(ns)s::get_if<int>(&cv) + (%(ns)s::get_if<double>(&a) == nullptr);
+    r += %(ns)s::visit([](auto x) { return long(x); }, a) + %(ns)s::visit([](auto x, auto y) { return long(x + y); }, a, cv) + %(ns)s::visit([](const auto& x) { return long(sizeof(x)); }, w);
+    r += (a == b) + (a != b) + (a < b) + (a <= b) + (a > b) + (a >= b) + (w == w2) + (w < w2);
+    r += std::hash<V>()(a) %% 2 + std::hash<W>()(w) %% 2 + std::hash<%(ns)s::monostate>()(%(ns)s::monostate()) %% 2;
+    r += %(ns)s::variant_size<V>::value + sizeof(%(ns)s::variant_alternative_t<1, V>) + (%(ns)s::variant_npos == static_cast<std::size_t>(-1));
+    %(ns)s::monostate m1, m2; r += (m1 == m2) + (m1 != m2) + (m1 < m2) + (m1 <= m2) + (m1 > m2) + (m1 >= m2);
+    %(ns)s::bad_variant_access bva; r += bva.what()[0];
+    (void) c; (void) f; (void) g; (void) w3; (void) w5;
+    return r;
+}"""
+
+H("xvariant_impl.hpp", post=["string", "functional"], entries=[
+    X("mpark::variant<int,double>", "template class mpark::variant<int, double>;"),
+    X("mpark::variant<monostate,int,std::string>", "template class mpark::variant<mpark::monostate, int, std::string>;"),
+    C("mpark::variant/constructor-templates-get-visit-operators", (_VARIANT_CALLS % {"n": "mpark", "ns": "mpark"})),
+])
+
+H("xvariant.hpp", post=["string", "functional"], entries=[
+    X("xtl::variant<int,double>", "template class xtl::variant<int, double>;"),
+    C("xtl::variant/constructor-templates-get-visit-operators", (_VARIANT_CALLS % {"n": "xtl", "ns": "xtl"}).replace("xtl::in_place_index_t<1>()", "mpark::in_place_index_t<1>()").replace("xtl::in_place_type_t<", "mpark::in_place_type_t<")),
+    C("xget-and-overload-helpers", """
+int c19_xget_calls()
+{
+    int i = 1; const int ci = 2;
+    typedef xtl::variant<int, xtl::xclosure_wrapper<int&>, xtl::xclosure_wrapper<const int&> > V;
+    V byval(3), byref(xtl::closure(i)), bycref(xtl::closure(ci));
+    const V cbyval(4), cbyref(xtl::closure(i));
+    int r = xtl::xget<int>(byval) + xtl::xget<int>(cbyval) + xtl::xget<int>(V(5)) + xtl::xget<int&>(byref) + xtl::xget<int&>(cbyref) + xtl::xget<int&>(V(xtl::closure(i)))
+          + xtl::xget<const int&>(bycref) + xtl::xget<const int&>(byref) + xtl::xget<const int&>(cbyref) + xtl::xget<const int&>(V(xtl::closure(ci)))
+          + xtl::xget<int>(std::move(cbyval)) + xtl::xget<int&>(std::move(cbyref));
+    auto ov = xtl::make_overload([](int x) { return x; }, [](double) { return -1; });
+    return r + ov(3) + ov(2.5);
+}"""),
+])
+
+_VIS_PRELUDE = """
+namespace c19v
+{
+    struct node : xtl::base_visitable<int> {};
+    struct leaf1 : node { XTL_DEFINE_VISITABLE() };
+    struct leaf2 : node { XTL_DEFINE_VISITABLE() };
+    struct cnode : xtl::base_visitable<int, true, xtl::throwing_catch_all> {};
+    struct cleaf : cnode { XTL_DEFINE_CONST_VISITABLE() };
+    struct vnode : xtl::base_visitable<> {};
+    struct vleaf : vnode { XTL_DEFINE_VISITABLE() };
+    struct vis12 : xtl::base_visitor, xtl::visitor<xtl::mpl::vector<leaf1, leaf2>, int, false>
+    {
+        int visit(leaf1&) override { return 1; }
+        int visit(leaf2&) override { return 2; }
+    };
+    struct cvis : xtl::base_visitor, xtl::visitor<cleaf, int, true> { int visit(const cleaf&) override { return 3; } };
+    struct vvis : xtl::base_visitor, xtl::visitor<vleaf, void, false> { void visit(vleaf&) override {} };
+    struct cyc1; struct cyc2;
+    struct cycvis : xtl::cyclic_visitor<xtl::mpl::vector<cyc1, cyc2>, int, false>
+    {
+        int visit(cyc1&) override { return 4; }
+        int visit(cyc2&) override { return 5; }
+    };
+    struct cycbase { virtual ~cycbase() {} virtual int accept(cycvis&) = 0; };
+    struct cyc1 : cycbase { XTL_DEFINE_CYCLIC_VISITABLE(cycvis) };
+    struct cyc2 : cycbase { XTL_DEFINE_CYCLIC_VISITABLE(cycvis) };
+}
+"""
+
+H("xvisitor.hpp", prelude=_VIS_PRELUDE, entries=[
+    X("visitor<T,R,is_const>", "template class xtl::visitor<c19v::leaf1, int, false>;\ntemplate class xtl::visitor<c19v::cleaf, int, true>;\ntemplate class xtl::visitor<xtl::mpl::vector<c19v::leaf1, c19v::leaf2>, int, false>;\ntemplate class xtl::visitor<xtl::mpl::vector<>, int, true>;"),
+    X("base_visitable<R,const,catch_all>", "template class xtl::base_visitable<int, false, xtl::default_catch_all>;\ntemplate class xtl::base_visitable<int, true, xtl::throwing_catch_all>;\ntemplate class xtl::base_visitable<void, false, xtl::default_catch_all>;"),
+    X("catch_all-policies", "template struct xtl::default_catch_all<int, c19v::leaf1>;\ntemplate struct xtl::throwing_catch_all<int, const c19v::cleaf>;\ntemplate struct xtl::default_catch_all<void, c19v::vleaf>;"),
+    X("cyclic_visitor<vector<...>,int,false>", "template class xtl::cyclic_visitor<xtl::mpl::vector<c19v::cyc1, c19v::cyc2>, int, false>;"),
+    C("visitors/accept-and-generic_visit", """
+int c19_visitor_calls()
+{
+    using namespace c19v;
+    leaf1 l1; leaf2 l2; const cleaf cl; vleaf vl; cyc1 c1; cyc2 c2;
+    vis12 v; cvis cv; vvis vv; cycvis cy;
+    node& n1 = l1; node& n2 = l2; const cnode& cn = cl; vnode& vn = vl; cycbase& b1 = c1; cycbase& b2 = c2;
+    vn.accept(vv); vn.accept(v);
+    return n1.accept(v) + n2.accept(v) + n1.accept(cv) + cn.accept(cv) + b1.accept(cy) + b2.accept(cy);
 }"""),
 ])
